@@ -165,13 +165,23 @@ fn c11_suite<S: ShortGroupSignatureScheme>(em: &mut Emitter, base: &mut Rng, sui
         // response vectors shortened / extended
         for (path, _) in ls.iter().filter(|(p, _)| p.len() >= 2 && p[p.len() - 2] == "proof" && p[p.len() - 1] == "0") {
             let arr_path = &path[..path.len() - 1];
-            for how in ["shorten", "extend"] {
+            for how in ["shorten", "extend", "extend-by-minus-challenge", "extend-by-challenge", "extend-by-zero", "extend-by-last", "prepend-zero"] {
                 let mut v2 = pv.clone();
                 if let Some(Value::Array(a)) = get_mut(&mut v2, arr_path) {
-                    if how == "shorten" {
-                        a.pop();
-                    } else {
-                        a.push(json!(sc_hex(&rng.scalar())));
+                    match how {
+                        "shorten" => {
+                            a.pop();
+                        }
+                        "extend" => a.push(json!(sc_hex(&rng.scalar()))),
+                        "extend-by-minus-challenge" => a.push(json!(sc_hex(&(-p.challenge)))),
+                        "extend-by-challenge" => a.push(json!(sc_hex(&p.challenge))),
+                        "extend-by-zero" => a.push(json!(sc_hex(&Scalar::ZERO))),
+                        "extend-by-last" => {
+                            if let Some(l) = a.last().cloned() {
+                                a.push(l);
+                            }
+                        }
+                        _ => a.insert(0, json!(sc_hex(&Scalar::ZERO))),
                     }
                 }
                 let (verdict, _) = verdict_json::<S>(&scn, &v2);
@@ -284,6 +294,11 @@ fn c04_suite<S: ShortGroupSignatureScheme>(em: &mut Emitter, base: &mut Rng, sui
         if k == 0 {
             mix = Mix { n_creds: 2, n_claims: 4, disclosed: vec![vec![], vec!["age".into()]], revocation: true, membership: true, equality: true, commitment: Some(2), range: Some((Some(0), Some(150))), verenc: Some((3, false)), ved: Some(3), age: 40, shuffle: false };
         }
+        if k == 1 {
+            // predicates on a claim that an equality statement ties across two credentials: the shared
+            // response makes "which credential is referenced" invisible to every verification equation
+            mix = Mix { n_creds: 2, n_claims: 4, disclosed: vec![vec![], vec![]], equality: true, commitment: Some(1), verenc: Some((1, false)), membership: true, age: 40, ..Default::default() };
+        }
         let mut scn = Scn::<S>::build(rng, &mix);
         if k % 2 == 0 && scn.nonce.is_empty() {
             scn.nonce = rng.bytes(16);
@@ -327,8 +342,26 @@ fn c04_suite<S: ShortGroupSignatureScheme>(em: &mut Emitter, base: &mut Rng, sui
         leaves(&sv, &mut vec![], &mut ls);
         let all_leaf_values: Vec<Value> = ls.iter().map(|(_, v)| v.clone()).collect();
         em.count_n("schema-leaves", ls.len() as u64);
+        // harness self-check: the unmutated schema must survive the JSON path used for mutation
+        match schema_from_value::<S>(&sv) {
+            Out::Ok(s0) if call(|| p.verify(&s0, &scn.nonce)).is_ok() => {}
+            _ => {
+                em.violation("harness-schema-json-path-broken", format!("{}: the schema re-read from its JSON value no longer verifies the honest presentation (harness self-check)", suite), scn.replay(json!({"suite": suite})));
+                continue;
+            }
+        }
+        let stmt_ids: Vec<String> = scn.schema.statements.keys().cloned().collect();
         for (path, leaf) in &ls {
-            for (how, nv) in mutate_leaf(rng, leaf, &all_leaf_values) {
+            let mut muts = mutate_leaf(rng, leaf, &all_leaf_values);
+            // a reference to a statement retargeted to every other statement of the schema
+            if let Value::String(sv0) = leaf {
+                if stmt_ids.contains(sv0) {
+                    for other in stmt_ids.iter().filter(|o| *o != sv0) {
+                        muts.push(("retarget-to-other-statement", json!(other)));
+                    }
+                }
+            }
+            for (how, nv) in muts {
                 if matches!(how, "zero" | "identity" | "negation" | "plus-one") && !em.thorough() && rng.coin() {
                     continue;
                 }
